@@ -12,7 +12,7 @@ Definition summ (src : srcp) (c : cfg) (sched : list step) : gs := gs_outs gs0 (
 
 Definition plain_cfg : cfg :=
   {| c_oneway := false; c_data := false; c_trailers := false; c_route := RouteForward; c_nhosts := 2%nat; c_retry_on := false;
-     c_num_retries := 0%nat; c_codes := []; c_try_timeout := false; c_max_retries := 0; c_recv := []; c_send := []; c_pool := []; c_delay := []; c_snd_err_hdr := false; c_snd_err_data := false; c_snd_err_trl := false; c_http := false |}.
+     c_num_retries := 0%nat; c_codes := []; c_try_timeout := false; c_max_retries := 0; c_recv := []; c_send := []; c_pool := []; c_delay := []; c_snd_err_hdr := false; c_snd_err_data := false; c_snd_err_trl := false; c_http := false; c_nohost_from := None |}.
 
 (* the worker runs whenever it can, every sleep ends: 120 rounds of [Worker; Worker; Worker; wake] *)
 Definition drive : list step := concat (repeat [Worker; Worker; Worker; Env EvWake] 120).
@@ -208,4 +208,56 @@ Definition reset_by_reason_statement (src : srcp) : Prop :=
 Lemma refuted_reset_reads_status : ~ reset_by_reason_statement src_stale_status.
 Proof.
   intros H. specialize (H cfg_http_codes RsRemoteReset (init_st 0 <| status_var := Some 503 |>)). vm_compute in H. discriminate H.
+Qed.
+
+(* ---------- the send chain on every reply that reaches the client ---------- *)
+(* the UpFilter phase running the send filters once per upstreamRequest object (switch set): the retried 503 goes through the
+   filters and marks the object; at retry time no healthy host is left, doRetry keeps the OLD object and records the local 502; back
+   in UpFilter the chain is skipped: the only response the client gets bypasses every send filter *)
+Definition src_send_once : srcp := src_tree <| send_once_per_upreq := true |>.
+Definition cfg_nohost : cfg :=
+  plain_cfg <| c_retry_on := true |> <| c_send := [{| sf_code := 400; sf_verdicts := [] |}; {| sf_code := 401; sf_verdicts := [] |}] |>
+            <| c_nohost_from := Some 1%nat |>.
+Definition sched_503_then_nohost : list step := repeat Worker 12 ++ [Env (EvUpResp 0 503 false false)] ++ drive.
+Lemma witness_reply_skips_send_filters :
+  x_unfilt (final src_send_once cfg_nohost sched_503_then_nohost) = true /\
+  scalls (final src_send_once cfg_nohost sched_503_then_nohost) = [1%nat; 1%nat] /\
+  g_reply_kind (summ src_send_once cfg_nohost sched_503_then_nohost) = Some (KHijack, 502) /\
+  g_ended (summ src_send_once cfg_nohost sched_503_then_nohost) = true /\
+  (* the tree: both filters ran on the 503 and on the 502 *)
+  x_unfilt (final src_tree cfg_nohost sched_503_then_nohost) = false /\
+  scalls (final src_tree cfg_nohost sched_503_then_nohost) = [2%nat; 2%nat] /\
+  g_reply_kind (summ src_tree cfg_nohost sched_503_then_nohost) = Some (KHijack, 502) /\
+  nnew (final src_tree cfg_nohost sched_503_then_nohost) = 1%nat.
+Proof. vm_compute. repeat split; reflexivity. Qed.
+
+(* ---------- a write into the downStream object after it was given back to the pool ---------- *)
+(* onUpstreamHeaders setting downstreamResponseStarted after appendHeaders (switch set back): a headers-only response on the clean
+   path ends the stream, cleans it and gives the object back inside appendHeaders; the assignment lands in the pooled object, and the
+   next request served from it believes its response has begun: a pool overflow is then answered by resetting the client stream -
+   no 503 reply *)
+Definition src_late_started : srcp := src_tree <| started_marked_first := false |>.
+Definition sched_answered_plain : list step := repeat Worker 12 ++ [Env (EvUpResp 0 200 false false)] ++ repeat Worker 8.
+Definition cfg_overflow : cfg := plain_cfg <| c_pool := [PoolOverflow] |>.
+Definition second_run (src : srcp) : st * list out :=
+  run src cfg_overflow (next_request src (final src plain_cfg sched_answered_plain) 0) drive.
+Lemma witness_write_after_give :
+  gave (final src_late_started plain_cfg sched_answered_plain) = true /\
+  late_started (final src_late_started plain_cfg sched_answered_plain) = true /\
+  resp_started (next_request src_late_started (final src_late_started plain_cfg sched_answered_plain) 0) = true /\
+  g_started (gs_outs gs0 (snd (second_run src_late_started))) = false /\
+  existsb (fun o => match o with ODownReset => true | _ => false end) (snd (second_run src_late_started)) = true /\
+  (* the tree: the object is clean, the second request gets its error reply *)
+  late_started (final src_tree plain_cfg sched_answered_plain) = false /\
+  next_request src_tree (final src_tree plain_cfg sched_answered_plain) 0 = init_st 0 /\
+  g_reply_kind (gs_outs gs0 (snd (second_run src_tree))) = Some (KHijack, reason_code src_tree RsOverflow) /\
+  g_ended (gs_outs gs0 (snd (second_run src_tree))) = true.
+Proof. vm_compute. repeat split; reflexivity. Qed.
+
+Definition fresh_start_statement (src : srcp) : Prop :=
+  forall c sched rc0, next_request src (final src c sched) rc0 = init_st rc0.
+Lemma refuted_write_after_give : ~ fresh_start_statement src_late_started.
+Proof.
+  intros H. specialize (H plain_cfg sched_answered_plain 0). apply (f_equal resp_started) in H.
+  destruct witness_write_after_give as (_ & _ & W & _). rewrite W in H. cbn in H. exact (Bool.diff_true_false H).
 Qed.
